@@ -929,6 +929,14 @@ CORPUS = [
          nodes=[[0, None, 0, [[1, None, None, []]]], [2, None, "", [[3, None, None, []]]]], starts="all"),
     # a node that shares the system root's data_id: the root's definition must not be repeated (D36 through the Tree API)
     dict(typed=False, univ=["s:a", "s:b"], nodes=[[0, None, None, [[1, None, "__root__", [[0, None, None, []]]]]]], starts="all"),
+    # a cloned parent whose clones each have a clone of the same child, with different kinds (one edge PER TREE NODE)
+    dict(typed=True, univ=["s:a", "s:b", "s:c", "s:d"],
+         nodes=[[0, "k", None, [[1, "k", None, [[2, "k", None, []]]]]], [3, "k", None, [[1, "m", None, [[2, "m", None, []], [0, "m", None, []]]]]]],
+         starts="all", rdf_skip=[2]),
+    # clones with different child lists (every clone is expanded)
+    dict(typed=False, univ=["s:a", "s:b", "s:w", "s:t", "s:u"],
+         nodes=[[0, None, None, [[2, None, None, [[3, None, None, []]]]]], [1, None, None, [[2, None, None, [[4, None, None, [[2, None, None, []]]]]]]]],
+         starts="all"),
     # D172: the RDF node_mapper answers False for a node that has children
     dict(typed=True, univ=["s:a", "s:b"], nodes=[[0, "k", None, [[1, "k", None, []]]]], starts="all", rdf_skip=[1]),
     # D171: node_mapper and edge_mapper both given as strings
